@@ -153,7 +153,7 @@ def run_resolve(ctx):
     hx = ctx.go_build("c09")
     quick = ctx.quick()
     cmd = [hx, "resolve", "-seed", str(ctx.seed), "-n", "960" if quick else "5000",
-           "-vectors", "8" if quick else "64", "-coq", "30" if quick else "320"]
+           "-vectors", "6" if quick else "64", "-coq", "20" if quick else "320"]
     rows = ctx.jsonl(cmd, timeout=1500)
     world = [r for r in rows if r.get("kind") == "world"][0]
     summary = [r for r in rows if r.get("kind") == "rsummary"][0]
@@ -204,7 +204,7 @@ def resolve_finish(ctx, summary, terms, refs, bad_model, bad_spec):
     return {
         "evaluations": summary["runs"], "distinct_nontrivial": summary["runs"],
         "programs": summary["programs"], "option_vectors": summary["vectors"], "plants": summary["plants"],
-        "rule": "programs from a grammar (defs with all parameter kinds, nested defs, lambdas with defaults, comprehensions with several clauses, if/for/break/continue, calls with positional/named/*/** arguments, loads) valid under every option vector; in 7 of 8 programs one construct is planted (125 kinds: every rule of the resolver, at top level / in a function / in a loop / in an if / in a nested def / in a def inside a loop, or wrapped in random expression contexts), plus 7 context-sensitive constructs (load, break, continue, return, if, for, while) x 30 branch positions (if-true, elif, final else after one or two elifs, for body, while body, nestings of these, after a compound statement; at top level and in a function) with the exact expected error list, x option vectors (quick: all-off, all-on and 6 seeded; thorough: all 64), and x all 16 combinations of the legacy flags resolve.AllowSet/AllowGlobalReassign/AllowRecursion/LoadBindsGlobally through the legacy entry point starlark.ExecFile, compared with the rules under the documented mapping of LegacyFileOptions; and as a module reached through load() via the loader of repl.MakeLoadOptions(opts) with the legacy flags set to the complement of opts (must behave as under ExecFileOptions(opts)). The misplaced positional argument of the argument-order plants ranges over 18 expression forms (literal, identifier, unary -, +, ~, not, parenthesised, binary, list, dict, call, lambda, conditional, comprehension, index, attribute, tuple, string). Each run goes through the real ExecFileOptions pipeline with logging built-ins and a logging loader.",
+        "rule": "programs from a grammar (defs with all parameter kinds, nested defs, lambdas with defaults, comprehensions with several clauses, if/for/break/continue, calls with positional/named/*/** arguments, loads) valid under every option vector; in 7 of 8 programs one construct is planted (125 kinds: every rule of the resolver, at top level / in a function / in a loop / in an if / in a nested def / in a def inside a loop, or wrapped in random expression contexts), plus 7 context-sensitive constructs (load, break, continue, return, if, for, while) x 30 branch positions (if-true, elif, final else after one or two elifs, for body, while body, nestings of these, after a compound statement; at top level and in a function) with the exact expected error list, x option vectors (quick: all-off, all-on and 4 seeded; thorough: all 64), and x all 16 combinations of the legacy flags resolve.AllowSet/AllowGlobalReassign/AllowRecursion/LoadBindsGlobally through the legacy entry point starlark.ExecFile, compared with the rules under the documented mapping of LegacyFileOptions; and as a module reached through load() via the loader of repl.MakeLoadOptions(opts) with the legacy flags set to the complement of opts (must behave as under ExecFileOptions(opts)). The misplaced positional argument of the argument-order plants ranges over 18 expression forms (literal, identifier, unary -, +, ~, not, parenthesised, binary, list, dict, call, lambda, conditional, comprehension, index, attribute, tuple, string). Each run goes through the real ExecFileOptions pipeline with logging built-ins and a logging loader.",
         "distribution": summary["dist"], "coq_programs": len(terms),
         "model_mismatches": len(bad_model), "spec_mismatches": len(bad_spec),
         "expectation_mismatches": summary["problem_programs"],
@@ -259,7 +259,7 @@ Definition spec_ok (c : case) : bool :=
 def run_rec(ctx):
     hx = ctx.go_build("c09")
     quick = ctx.quick()
-    rows = ctx.jsonl([hx, "rec", "-seed", str(ctx.seed), "-n", "150" if quick else "2000"], timeout=900)
+    rows = ctx.jsonl([hx, "rec", "-seed", str(ctx.seed), "-n", "120" if quick else "2000"], timeout=900)
     summary = [r for r in rows if r.get("kind") == "recsummary"][0]
     cases = [r for r in rows if r.get("kind") == "rec"]
     ctx.log("recursion: %d call graphs x recursion off/on; %d disagree with the rule" % (summary["graphs"], summary["problems"]))
@@ -286,7 +286,7 @@ def run_rec(ctx):
         terms.append("(%s, %s, %s)" % (cbool(c["rec"]), evs, obs))
         refs.append(c)
     if quick:
-        terms, refs = terms[:100], refs[:100]
+        terms, refs = terms[:90], refs[:90]
     return ("S", RHEADER, terms, ["model_ok", "spec_ok"]), lambda bad: rec_finish(ctx, summary, terms, refs, bad[0], bad[1])
 
 
